@@ -109,7 +109,9 @@ func (o *Obligation) Query(withModel bool) string {
 		pending := map[string][]string{}
 		for _, a := range o.Assume {
 			if o.Decls.giSet[a] {
-				pending[a] = globSymRe.FindAllString(a, -1)
+				if syms := globSymRe.FindAllString(a, -1); len(syms) > 0 {
+					pending[a] = syms // (an invariant re-assumed after a call may mention no variable any more: kept)
+				}
 			}
 		}
 		for changed := true; changed; {
